@@ -73,6 +73,23 @@ def wawk_parse(src):
     return copy.deepcopy(_PARSED[src])
 
 
+def _tok_atom(t):
+    from wal.ast_defs import Symbol
+    return t[1] if t[0] in ('i', 's') else Symbol(t[1])
+
+
+def tok_text(toks):
+    return ' '.join(t[1] if t[0] in ('p', 'y') else str(t[1]) if t[0] == 'i' else '"' + t[1] + '"' for t in toks)
+
+
+def wawk_parse_exprs(token_lists):
+    """the forms the real parser builds for the expressions (texts of the token lists), or raises"""
+    src = 'BEGIN: {\n' + '\n'.join(f'  v{k} = {tok_text(toks)};' for k, toks in enumerate(token_lists)) + '\n}\n'
+    parsed = wawk_parse(src)
+    action = parsed[0].action          # (do (set (v0 e0)) (set (v1 e1)) ...)
+    return [a[1][1] for a in action[1:]]
+
+
 def run_impl(steps, limit=5.0):
     """execute steps on a fresh interpreter; returns the list of observations (stops after an eval error)"""
     import contextlib
@@ -138,6 +155,12 @@ def run_impl(steps, limit=5.0):
                 obs.append(('ok', wal_str(impl.parse(st[1]) if isinstance(st[1], str) else st[1])))
             except BaseException as e:  # noqa: BLE001
                 obs.append(('other', type(e).__name__))
+        elif kind == 'wawkparse':
+            # st[1]: list of token lists; all are parsed by the real parser in one program (one assignment each)
+            try:
+                obs.append(('ok', wire.canon(wawk_parse_exprs(st[1]))))
+            except BaseException as e:  # noqa: BLE001
+                obs.append(('err', type(e).__name__))
         elif kind == 'wawkemit':
             try:
                 obs.append(('ok', wire.canon(wawk_emit(st[1])[0])))
@@ -191,6 +214,8 @@ def model_lines(steps):
             lines.append(('read ' + hx(st[1])).rstrip())
         elif kind == 'print':
             lines.append('print ' + wire.enc(impl.parse(st[1]) if isinstance(st[1], str) else st[1]))
+        elif kind == 'wawkparse':
+            lines.append('wawkparse ' + wire.enc([[[t[1]] if t[0] == 'p' else _tok_atom(t) for t in toks] for toks in st[1]]))
         elif kind == 'wawkemit':
             lines.append('wawkemit ' + wire.enc([[list(x.condition), x.action] for x in wawk_parse(st[1])]))
         elif kind == 'run':
@@ -238,6 +263,13 @@ def parse_reply(step, reply):
             return ('parse',)
         if toks[0] == 'unsup':
             return ('unsup', unhx(toks[1]) if len(toks) > 1 else '')
+        return ('bad', reply)
+    if kind == 'wawkparse':
+        if toks[0] == 'ok':
+            v, _ = wire.dec(toks[1:])
+            return ('ok', v)
+        if toks[0] == 'perr':
+            return ('err', 'model')
         return ('bad', reply)
     if kind == 'wawkemit':
         if toks[0] == 'ok':
